@@ -163,6 +163,17 @@ func c15Shape(v2, v3 resp.Value, path string) string {
 	if v2.IsString() != d3.IsString() || (v2.Kind == ':') != (d3.Kind == ':') || (v2.Kind == '*') != (d3.Kind == '*') {
 		return fmt.Sprintf("%s: shapes differ: RESP2 %s vs RESP3 %s", path, trunc(v2.String(), 200), trunc(v3.String(), 200))
 	}
+	if v3.Kind == '=' && v2.IsString() {
+		// verbatim text (CLIENT LIST, INFO): the values differ between two instances (ids, ports, ages) but the text
+		// structure must be the same: same number of lines, and no verbatim format prefix leaking into RESP2
+		t2, t3 := v2.Text(), v3.Text()
+		if strings.Count(t2, "\n") != strings.Count(t3, "\n") {
+			return fmt.Sprintf("%s: verbatim text has %d line breaks in RESP3 but %d in RESP2: %s", path, strings.Count(t3, "\n"), strings.Count(t2, "\n"), trunc(v2.String(), 200))
+		}
+		if len(v3.Str) >= 4 && strings.HasPrefix(t2, string(v3.Str[:4])) && !strings.HasPrefix(t3, string(v3.Str[:4])) {
+			return fmt.Sprintf("%s: the verbatim format prefix %q leaked into the RESP2 string: %s", path, v3.Str[:4], trunc(v2.String(), 120))
+		}
+	}
 	if v2.Kind == '*' && len(v2.Elems) != len(d3.Elems) {
 		// a list of pairs (HRANDFIELD ... WITHVALUES) is flat in RESP2
 		pairs := len(d3.Elems) > 0 && len(v2.Elems) == 2*len(d3.Elems)
